@@ -172,6 +172,19 @@ def explore_part(args):
     return fam.result()
 
 
+def big_directory(fam, sb, n):
+    """one large directory (so that several files share a worker's read buffer): files / check through the directory
+    on 1, 2 and the default number of threads; every file is compared with the model"""
+    m = Machine(sb, fam)
+    kinds = ["shorter-by-many", "invalid-utf8", "longer", "formatted", "same-length", "utf16le-bom", "invalid-utf8", "shorter-by-1"]
+    state = tuple((f"f{i:03d}.pas", ALPHABET[kinds[i % len(kinds)]]) for i in range(n))
+    names = [nm for nm, _ in state]
+    for threads in (1, 2, None):
+        for mode in ("check", "files"):
+            step(m, fam, state, "dir", names, mode, ["big-directory"], threads=threads)
+            fam.transitions += 1
+
+
 def explore(tier, seed):
     import concurrent.futures
     depth = 2 if tier == "quick" else 3
@@ -204,6 +217,8 @@ def explore(tier, seed):
                 fam.stats["by_signature"][k] = fam.stats["by_signature"].get(k, 0) + n
             fam.stats["violations"] += st["violations"]
     fam.samples = fam.samples[:3]
+    with cli.Sandbox("c16-big") as sb:
+        big_directory(fam, sb, 48 if tier == "quick" else 200)
     return [fam]
 
 
